@@ -1,5 +1,6 @@
 //! mtmc – bounded exhaustive exploration of momtrop against the exact reference model.
 //! usage: mtmc <Cxx> --tier quick|thorough [--replay <file>]
+mod c06;
 mod common;
 mod kernel;
 mod obs;
@@ -50,6 +51,7 @@ fn main() {
             match case["engine"].as_str().unwrap_or("") {
                 "table" => table::replay(&ctx, case),
                 "sampler" => sprops::replay_point(&ctx, case),
+                "c06" => c06::replay(&ctx, case),
                 "kernel" => match case["kind"].as_str().unwrap_or("") {
                     "gamma" | "gamma-pair" => kernel::replay_gamma(case),
                     "matrix" => kernel::replay_matrix(&ctx, case),
@@ -63,6 +65,8 @@ fn main() {
         } else {
             match prop.as_str() {
                 "C03" | "C04" | "C05" => table::run(&ctx),
+                "C06" => c06::run(&ctx),
+                "C02" => sprops::run_c02(&ctx),
                 "C12" => kernel::run_c12(&ctx),
                 "C15" => kernel::run_c15(&ctx),
                 "C16" => kernel::run_c16(&ctx),
